@@ -40,10 +40,14 @@ pub open spec fn msub(a: int, b: int) -> int { madd(a, mneg(b)) }
 #[verifier::external_body] pub proof fn bx_neg_mul(a: int, b: int) ensures mmul(mneg(a), b) == mneg(mmul(a, b)), mmul(a, mneg(b)) == mneg(mmul(a, b)) {}
 #[verifier::external_body] pub proof fn bx_neg_zero(r: int, c: int) ensures mneg(mzero(r, c)) == mzero(r, c) {}
 /// [a | b] [c ; d] = a c + b d
-#[verifier::external_body] pub proof fn bx_concat_stack(a: int, b: int, c: int, d: int) ensures mmul(mconcat(a, b), mstack(c, d)) == madd(mmul(a, c), mmul(b, d)) {}
-#[verifier::external_body] pub proof fn bx_add_comm(a: int, b: int) ensures madd(a, b) == madd(b, a) {}
+#[verifier::external_body] pub proof fn bx_concat_stack(a: int, b: int, c: int, d: int)
+    requires nc(a) == nr(c), nc(b) == nr(d), nr(a) == nr(b), nc(c) == nc(d)
+    ensures mmul(mconcat(a, b), mstack(c, d)) == madd(mmul(a, c), mmul(b, d)) {}
+#[verifier::external_body] pub proof fn bx_add_comm(a: int, b: int) requires nr(a) == nr(b), nc(a) == nc(b) ensures madd(a, b) == madd(b, a) {}
 /// [p | q] [[a, b], [c, d]] = [p a + q c | p b + q d]
-#[verifier::external_body] pub proof fn bx_mul_concat_rows(p: int, q: int, a: int, b: int, c: int, d: int) ensures mmul(mconcat(p, q), mstack(mconcat(a, b), mconcat(c, d))) == mconcat(madd(mmul(p, a), mmul(q, c)), madd(mmul(p, b), mmul(q, d))) {}
+#[verifier::external_body] pub proof fn bx_mul_concat_rows(p: int, q: int, a: int, b: int, c: int, d: int)
+    requires nc(p) == nr(a), nr(a) == nr(b), nc(q) == nr(c), nr(c) == nr(d), nc(a) == nc(c), nc(b) == nc(d), nr(p) == nr(q)
+    ensures mmul(mconcat(p, q), mstack(mconcat(a, b), mconcat(c, d))) == mconcat(madd(mmul(p, a), mmul(q, c)), madd(mmul(p, b), mmul(q, d))) {}
 /// a matrix is its top rows stacked on its bottom rows / its left columns next to its right columns
 #[verifier::external_body] pub proof fn bx_split(a: int, r: int) requires 0 <= r
     ensures r <= nr(a) ==> a == mstack(mrows(a, 0, r), mrows(a, r, nr(a))), r <= nc(a) ==> a == mconcat(mcols(a, 0, r), mcols(a, r, nc(a))) {}
@@ -58,5 +62,17 @@ pub uninterp spec fn pmi(p: int) -> int;
 pub uninterp spec fn pdim(p: int) -> int;
 #[verifier::external_body] pub proof fn bx_perm(p: int)
     ensures nr(pm(p)) == pdim(p), nc(pm(p)) == pdim(p), nr(pmi(p)) == pdim(p), nc(pmi(p)) == pdim(p), mmul(pm(p), pmi(p)) == mid(pdim(p)), mmul(pmi(p), pm(p)) == mid(pdim(p)) {}
-#[verifier::external_body] pub proof fn bx_add_inv(x: int, y: int) requires madd(x, y) == mzero(nr(x), nc(x)) ensures x == mneg(y) {}
+#[verifier::external_body] pub proof fn bx_add_inv(x: int, y: int) requires nr(x) == nr(y), nc(x) == nc(y), madd(x, y) == mzero(nr(x), nc(x)) ensures x == mneg(y) {}
 #[verifier::external_body] pub proof fn bx_neg_neg(x: int) ensures mneg(mneg(x)) == x {}
+/// the shape facts of bx_dims / bx_add_dims for all terms at once
+#[verifier::external_body] pub proof fn bx_dims_all()
+    ensures forall|a: int, b: int| nr(#[trigger] mmul(a, b)) == nr(a) && nc(mmul(a, b)) == nc(b),
+        forall|n: int| nr(#[trigger] mid(n)) == n && nc(mid(n)) == n,
+        forall|r: int, c: int| nr(#[trigger] mzero(r, c)) == r && nc(mzero(r, c)) == c,
+        forall|a: int, lo: int, hi: int| nr(#[trigger] mrows(a, lo, hi)) == hi - lo && nc(mrows(a, lo, hi)) == nc(a),
+        forall|a: int, lo: int, hi: int| nr(#[trigger] mcols(a, lo, hi)) == nr(a) && nc(mcols(a, lo, hi)) == hi - lo,
+        forall|a: int, b: int| nr(#[trigger] mstack(a, b)) == nr(a) + nr(b) && nc(mstack(a, b)) == nc(a),
+        forall|a: int, b: int| nr(#[trigger] mconcat(a, b)) == nr(a) && nc(mconcat(a, b)) == nc(a) + nc(b),
+        forall|a: int, b: int| nr(#[trigger] madd(a, b)) == nr(a) && nc(madd(a, b)) == nc(a),
+        forall|a: int| nr(#[trigger] mneg(a)) == nr(a) && nc(mneg(a)) == nc(a),
+{}
